@@ -135,3 +135,55 @@ func VerifSealWithGeneration(suiteID uint16, v protocol.Version, secret []byte, 
 	rogue.SetWriteKey(cs, ts)
 	return rogue.Seal(nil, pt, pn, ad)
 }
+
+// ---- C05 `protect` unit ----
+
+func (v *VerifUAEAD) Opener() ShortHeaderOpener { return v.a }
+func (v *VerifUAEAD) Sealer() ShortHeaderSealer { return v.a }
+
+// verifRawMask computes the raw header-protection mask for a sample (the value the
+// protector xors in before it selects 4 or 5 bits of the first byte): an oracle value for
+// the model's abstract mask function.
+func verifRawMask(hp headerProtector, sample []byte) []byte {
+	if len(sample) != 16 {
+		return nil
+	}
+	switch p := hp.(type) {
+	case *aesHeaderProtector:
+		out := make([]byte, 16)
+		p.block.Encrypt(out, sample)
+		return out[:5]
+	case *chachaHeaderProtector:
+		// recompute the keystream the way apply() does and read the protector's mask buffer
+		var first byte
+		q := &chachaHeaderProtector{key: p.key, isLongHeader: p.isLongHeader}
+		q.apply(sample, &first, make([]byte, 4))
+		return append([]byte{}, q.mask[:]...)
+	}
+	return nil
+}
+
+func VerifRawMaskLongSealer(s LongHeaderSealer, sample []byte) []byte {
+	return verifRawMask(s.(*longHeaderSealer).headerProtector, sample)
+}
+func VerifRawMaskLongOpener(o LongHeaderOpener, sample []byte) []byte {
+	return verifRawMask(o.(*longHeaderOpener).headerProtector, sample)
+}
+func (v *VerifUAEAD) RawMaskEnc(sample []byte) []byte { return verifRawMask(v.a.headerEncrypter, sample) }
+func (v *VerifUAEAD) RawMaskDec(sample []byte) []byte { return verifRawMask(v.a.headerDecrypter, sample) }
+func (v *VerifUAEAD) VerifHighestRcvd() int64        { return int64(v.a.highestRcvdPN) }
+func VerifLongOpenerHighestRcvd(o LongHeaderOpener) int64 {
+	return int64(o.(*longHeaderOpener).highestRcvdPN)
+}
+
+// VerifInitialKeys returns key, iv and header-protection key of both directions as
+// NewInitialAEAD derives them (client first), for comparison with the RFC 9001 / RFC 9369
+// Appendix A values.
+func VerifInitialKeys(connID protocol.ConnectionID, v protocol.Version) (out [6][]byte) {
+	cs, ss := computeSecrets(connID, v)
+	out[0], out[1] = computeInitialKeyAndIV(cs, v)
+	out[2] = hkdfExpandLabel(initialSuite.Hash, cs, []byte{}, hkdfHeaderProtectionLabel(v), initialSuite.KeyLen)
+	out[3], out[4] = computeInitialKeyAndIV(ss, v)
+	out[5] = hkdfExpandLabel(initialSuite.Hash, ss, []byte{}, hkdfHeaderProtectionLabel(v), initialSuite.KeyLen)
+	return
+}
